@@ -40,18 +40,18 @@ GenKeyExpected(avail) ==
                    ELSE [err |-> TRUE,  consumed |-> avail, key |-> FALSE]
 
 \* The sequence of Read calls GenerateKey may issue (io.ReadFull of 32 bytes), as a little state machine over the
-\* recorded calls <<requested, returned, failed>>: every call asks for exactly the missing bytes; reading stops when
-\* 32 bytes have arrived (an error delivered together with the last byte is dropped) or at the first error before
-\* that; nothing is read afterwards.  Result: "key" | "error" | "protocol" (a call the contract does not allow).
+\* recorded calls <<requested, returned, failed>>: no call asks for more than the missing bytes; nothing is read once
+\* 32 bytes have arrived (an error delivered together with the last byte is dropped); an error before that decides
+\* the outcome.  Result: "key" | "error" | "protocol" (a call the contract does not allow).
 RECURSIVE ReadFullRun(_, _, _)
 ReadFullRun(reads, i, got) ==
     IF got = 32 THEN (IF i > Len(reads) THEN "key" ELSE "protocol: read after the seed was complete")
     ELSE IF i > Len(reads) THEN "protocol: stopped before 32 bytes without an error"
     ELSE LET rq == reads[i][1]  n == reads[i][2]  failed == reads[i][3]
-         IN  IF rq # 32 - got THEN "protocol: asked for a wrong number of bytes"
+         IN  IF rq < 1 \/ rq > 32 - got THEN "protocol: asked for more than the missing bytes"     \* "reads exactly 32 bytes"
              ELSE IF n < 0 \/ n > rq THEN "protocol: reader misbehaved"
              ELSE IF got + n = 32 THEN ReadFullRun(reads, i + 1, 32)
-             ELSE IF failed THEN (IF i = Len(reads) THEN "error" ELSE "protocol: read after an error")
+             ELSE IF failed THEN "error"          \* whatever is read afterwards, the outcome must be the reader's error
              ELSE ReadFullRun(reads, i + 1, got + n)
 
 \* Equal is true exactly for byte-identical keys of the same type
